@@ -114,6 +114,9 @@ fn main() {
         usage();
     }
     let verif_dir = std::env::var("VERIF_DIR").unwrap_or_else(|_| "/verif".to_string());
+    if std::env::var("VERIF_FIXTURES").is_err() {
+        std::env::set_var("VERIF_FIXTURES", &verif_dir);
+    }
     let seed: u64 = std::env::var("VERIF_SEED")
         .ok()
         .and_then(|s| s.parse().ok())
@@ -157,6 +160,13 @@ fn main() {
                     }
                 }
             }
+        }
+        "record-fixtures" => {
+            let rev = args.get(2).cloned().unwrap_or_else(|| "unknown".into());
+            std::process::exit(checks::c18::record_all(&verif_dir, &rev));
+        }
+        "c12-child" => {
+            std::process::exit(checks::c12::child(args.get(2).map(|s| s.as_str()).unwrap_or("")));
         }
         "selftest" => {
             let what = args.get(2).map(|s| s.as_str()).unwrap_or("all");
